@@ -215,27 +215,59 @@ def babinet_bp_rules(run, db):
 
 
 def wrapper_rules(run, db):
-    """Wavefront.*_backprop delegate with spacings in the companion's roles."""
-    f = db.func(P + 'Wavefront.focus_fixed_sampling_backprop')
-    calls = [n for n in walk_no_nested(f.node) if isinstance(n, ast.Call) and ast.unparse(n.func) == 'focus_fixed_sampling_backprop']
-    if len(calls) != 1:
-        raise AnalysisError('Wavefront.focus_fixed_sampling_backprop: delegation not found')
-    kw = {k.arg: ast.unparse(k.value) for k in calls[0].keywords}
-    want = {'input_dx': 'dx', 'prop_dist': 'efl', 'wavelength': 'self.wavelength', 'output_dx': 'self.dx', 'output_samples': 'samples', 'shift': 'shift', 'method': 'method'}
-    run.check(all(kw.get(k) == v for k, v in want.items()) and [ast.unparse(a) for a in calls[0].args] == ['self.data'], 'C06.wrapper', f.qual, 'delegation',
-              'gradient (psf plane, self.dx) is sent back with input_dx = pupil dx, output_dx = self.dx, samples = pupil shape',
-              'wrapper passes %s' % kw, f.loc(calls[0]))
-    f = db.func(P + 'Wavefront.to_fpm_and_back_backprop')
-    calls = [n for n in walk_no_nested(f.node) if isinstance(n, ast.Call) and ast.unparse(n.func) == 'to_fpm_and_back_backprop']
-    if len(calls) != 1:
-        raise AnalysisError('Wavefront.to_fpm_and_back_backprop: delegation not found')
-    kw = {k.arg: ast.unparse(k.value) for k in calls[0].keywords}
-    fb = db.func(P + 'to_fpm_and_back_backprop')
-    pos = dict(zip(fb.params, [ast.unparse(a) for a in calls[0].args]))
-    pos.update(kw)
+    """Wavefront.*_backprop hand their arguments to the array-level companion in the companion's roles: decided on the values the
+    companion is called with (tokens for the object's attributes and the arguments), whatever way the call is reached."""
+    from ..core.interp import Interp, Domain, Value
+    from .common import capture_calls
+
+    class Tok(Value):
+        def __init__(self, name):
+            self.name = name
+
+        def __repr__(self):
+            return self.name
+
+    class TDomain(Domain):
+        def param(self, fi, name, default):
+            return None
+
+        def call_ext(self, dotted, args, kwargs, node):
+            if dotted == 'builtins.isinstance' and args and isinstance(args[0], Tok):
+                return Const(False)          # the scalar-to-pair conveniences are not what is decided here
+            return None
+    ci = db.cls(P + 'Wavefront')
+
+    def run_wrapper(meth, callee, space, argnames):
+        f = db.func(P + 'Wavefront.' + meth)
+        dom = TDomain()
+        it = Interp(db, dom)
+
+        def mkself():
+            o = Obj(ci)
+            o.attrs.update({'data': Tok('self.data'), 'dx': Tok('self.dx'), 'wavelength': Tok('self.wavelength'), 'space': Const(space)})
+            return o
+        kw = {a: Tok(a) for a in argnames if a in f.params}
+        missing = [a for a in f.params if a not in kw and a != 'self']
+        for a in missing:
+            kw[a] = Tok(a)
+        paths, calls = capture_calls(it, dom, f, lambda: dict(kw), {P + callee}, lambda f_, b_: Tok('result'), self_obj=mkself)
+        if not calls:
+            raise AnalysisError('Wavefront.%s: the companion %s is never reached' % (meth, callee))
+        return f, calls
+    show = lambda b: {k: (v.name if isinstance(v, Tok) else repr(v)) for k, v in b.items()}
+    f, calls = run_wrapper('focus_fixed_sampling_backprop', 'focus_fixed_sampling_backprop', 'psf', ['efl', 'dx', 'samples', 'shift', 'method'])
+    want = {'wavefunction': 'self.data', 'input_dx': 'dx', 'prop_dist': 'efl', 'wavelength': 'self.wavelength', 'output_dx': 'self.dx', 'output_samples': 'samples', 'shift': 'shift', 'method': 'method'}
+    for fi_, b, node, _c in calls:
+        got = show(b)
+        run.check(all(got.get(k) == v for k, v in want.items()), 'C06.wrapper', f.qual, 'delegation',
+                  'gradient (psf plane, self.dx) is sent back with input_dx = pupil dx, output_dx = self.dx, samples = pupil shape',
+                  'wrapper passes %s' % got, f.loc(node))
+    f, calls = run_wrapper('to_fpm_and_back_backprop', 'to_fpm_and_back_backprop', 'pupil', ['efl', 'fpm', 'fpm_dx', 'method', 'shift', 'return_more'])
     want = {'wavefunction': 'self.data', 'dx': 'self.dx', 'wavelength': 'self.wavelength', 'efl': 'efl', 'fpm': 'fpm', 'fpm_dx': 'fpm_dx', 'method': 'method', 'shift': 'shift'}
-    run.check(all(pos.get(k) == v for k, v in want.items()), 'C06.wrapper', f.qual, 'delegation', 'arguments reach the companion in their own roles',
-              'wrapper binds %s' % pos, f.loc(calls[0]))
+    for fi_, b, node, _c in calls:
+        got = show(b)
+        run.check(all(got.get(k) == v for k, v in want.items()), 'C06.wrapper', f.qual, 'delegation', 'arguments reach the companion in their own roles',
+                  'wrapper binds %s' % got, f.loc(node))
 
 
 def const_rules(run, db):
